@@ -158,9 +158,13 @@ def writers(ctx, F):
     fields = [f["name"] for f in a["variants"][0]["fields"]]
     for f in fields:
         if f not in WRITERS:
-            ctx.check("C03.S1", "field-in-writer-table:%s" % f, False, fn=GAME, file=a["file"],
-                      what="Game has a field the who-may-write table does not know: its restore-on-pop discipline is unchecked",
-                      found=f)
+            # a field the table does not know: harmless for take-back exactly when nothing writes it after the game was built
+            # (set once by the importer, copied by Clone) - then no play/take-back sequence can change it
+            ws_new = sorted({path for path, node, kind in field_writes(F, GAME, f)} - {"<chess::Game as std::clone::Clone>::clone", "chess::Game::new"})
+            ctx.check("C03.S1", "field-in-writer-table:%s" % f, not ws_new, fn=GAME, file=a["file"],
+                      what="Game has a field the who-may-write table does not know and that is written after construction: its "
+                           "restore-on-pop discipline is unchecked",
+                      expected="written only by Game::new (a constant of the loaded game)", found={"field": f, "written by": ws_new})
     for f, allowed in WRITERS.items():
         ws = field_writes(F, GAME, f)
         by_fn = {}
@@ -250,7 +254,11 @@ def s1b(ctx, F):
     """A function that swaps an evaluation table must re-seat every cached contribution that depends on it."""
     sites = [w for w in field_writes(F, GAME, "piece_scores") if w[2] == "cell-set"]
     ctx.floor("C03.S1b", "table-swap sites", len(sites), 1)
+    seen_paths = set()
     for path, node, kind in sites:
+        if path in seen_paths:
+            continue
+        seen_paths.add(path)
         fn = F.fn(path)
         body = fn["hir"]["body"]
         env = hir.Env(fn["hir"], F)
@@ -269,83 +277,86 @@ def s1b(ctx, F):
         # re-seating: set_position(X, get_position(X)) with X ranging over both kings' squares, after the swap and under the
         # same condition.  X may be get_king_position(P) (P a literal side, or the variable of a loop over both sides) or
         # self.king_positions[i] (i over all indices: literals, a `for` over 0..2 / the array, or a counting `while`).
-        reseated = set()
-        symt = hir.Sym(env, F, through=True)
-        swap_guard = [(hir.fmt(x[1]), x[2]) for x in (hir.guards_of(sets[0], body, sym) or []) if x[0] == "if"] if sets else []
-        for c, anc in hir.walk(body):
-            if not (c.get("k") == "MethodCall" and c["name"] == "set_position" and sets and hir.raw_line(c) >= hir.raw_line(sets[0])):
-                continue
-            blk = [a for a in anc if a.get("k") in ("Block", "Loop")][-1]
-            sts = blk.get("stmts") or []
-            pos_i = [i for i, st in enumerate(sts) if any(x is c for x, _ in hir.walk(st))]
-            # the locals the call reads must be defined by lets directly in front of it (nothing but lets in between)
-            k0 = pos_i[0] if pos_i else 0
-            j = k0
-            while j > 0 and sts[j - 1].get("k") == "SLet":
-                j -= 1
-            adjacent = {nm for st in sts[j:k0] for nm in hir.pat_names(st["pat"])}
-            sq_n, val_n = c["args"][0], c["args"][1]
-            names_used = {x["to"]["name"] for a_ in (sq_n, val_n) for x, _ in hir.walk(a_) if x.get("k") == "Path" and x["to"].get("res") == "local"}
-            through_ok = all(nm in adjacent or nm == "self" or sym(a_) == symt(a_) for nm in names_used for a_ in (sq_n, val_n))
-            sq, val = (symt(sq_n), symt(val_n)) if through_ok else (sym(sq_n), sym(val_n))
-            if val != ("call", "chess::Game::get_position", (("var", "self"), sq)):
-                continue
-            g_all = hir.guards_of(c, body, sym) or []
-            here = [(hir.fmt(x[1]), x[2]) for x in g_all if x[0] == "if"]
-            loop_conds = []
-            who = None
-            if sq[0] == "call" and str(sq[1]).endswith("Game::get_king_position"):
-                who = sq[2][1]
-            elif sq[0] == "index" and sq[1] == ("field", ("var", "self"), "king_positions"):
-                who = ("kidx", sq[2])
-            elif sq[0] == "var":
-                who = ("elem", sq[1])
-            sides = set()
-            if who is None:
-                continue
-            if who[0] == "variant":
-                sides.add(who[1].split("::")[-1])
-            elif who[0] == "kidx" and hir.sym_int(who[1]) in (0, 1):
-                sides.add(("White", "Black")[hir.sym_int(who[1])])
-            else:
-                var = who[1] if who[0] == "var" else (who[1][1] if who[0] == "kidx" and who[1][0] == "var" else (who[1] if who[0] == "elem" else None))
-                # `for` loops: the arm that binds `var`
-                for x in g_all:
-                    if x[0] == "arm" and x[1][0] == "call" and str(x[1][1]).endswith("into_iter"):
-                        it = x[1][2][0]
-                        if who[0] == "var" and it[0] == "arr" and all(el[0] == "variant" for el in it[1:]):
-                            sides |= {el[1].split("::")[-1] for el in it[1:]}
-                        if who[0] == "elem" and it == ("field", ("var", "self"), "king_positions"):
-                            sides |= {"White", "Black"}
-                        if who[0] == "kidx":
-                            t_it = hir.fmt(hir.resolve_consts(it, F), 120)
-                            if t_it in ("ops::Range{end: 2, start: 0}", "ops::Range{end: <impl [T]>::len(self.king_positions), start: 0}"):
+        for c0 in (sets or [None]):
+            if c0 is None:
+                break
+            reseated = set()
+            symt = hir.Sym(env, F, through=True)
+            swap_guard = [(hir.fmt(x[1]), x[2]) for x in (hir.guards_of(c0, body, sym) or []) if x[0] == "if"] if sets else []
+            for c, anc in hir.walk(body):
+                if not (c.get("k") == "MethodCall" and c["name"] == "set_position" and hir.raw_line(c) >= hir.raw_line(c0)):
+                    continue
+                blk = [a for a in anc if a.get("k") in ("Block", "Loop")][-1]
+                sts = blk.get("stmts") or []
+                pos_i = [i for i, st in enumerate(sts) if any(x is c for x, _ in hir.walk(st))]
+                # the locals the call reads must be defined by lets directly in front of it (nothing but lets in between)
+                k0 = pos_i[0] if pos_i else 0
+                j = k0
+                while j > 0 and sts[j - 1].get("k") == "SLet":
+                    j -= 1
+                adjacent = {nm for st in sts[j:k0] for nm in hir.pat_names(st["pat"])}
+                sq_n, val_n = c["args"][0], c["args"][1]
+                names_used = {x["to"]["name"] for a_ in (sq_n, val_n) for x, _ in hir.walk(a_) if x.get("k") == "Path" and x["to"].get("res") == "local"}
+                through_ok = all(nm in adjacent or nm == "self" or sym(a_) == symt(a_) for nm in names_used for a_ in (sq_n, val_n))
+                sq, val = (symt(sq_n), symt(val_n)) if through_ok else (sym(sq_n), sym(val_n))
+                if val != ("call", "chess::Game::get_position", (("var", "self"), sq)):
+                    continue
+                g_all = hir.guards_of(c, body, sym) or []
+                here = [(hir.fmt(x[1]), x[2]) for x in g_all if x[0] == "if"]
+                loop_conds = []
+                who = None
+                if sq[0] == "call" and str(sq[1]).endswith("Game::get_king_position"):
+                    who = sq[2][1]
+                elif sq[0] == "index" and sq[1] == ("field", ("var", "self"), "king_positions"):
+                    who = ("kidx", sq[2])
+                elif sq[0] == "var":
+                    who = ("elem", sq[1])
+                sides = set()
+                if who is None:
+                    continue
+                if who[0] == "variant":
+                    sides.add(who[1].split("::")[-1])
+                elif who[0] == "kidx" and hir.sym_int(who[1]) in (0, 1):
+                    sides.add(("White", "Black")[hir.sym_int(who[1])])
+                else:
+                    var = who[1] if who[0] == "var" else (who[1][1] if who[0] == "kidx" and who[1][0] == "var" else (who[1] if who[0] == "elem" else None))
+                    # `for` loops: the arm that binds `var`
+                    for x in g_all:
+                        if x[0] == "arm" and x[1][0] == "call" and str(x[1][1]).endswith("into_iter"):
+                            it = x[1][2][0]
+                            if who[0] == "var" and it[0] == "arr" and all(el[0] == "variant" for el in it[1:]):
+                                sides |= {el[1].split("::")[-1] for el in it[1:]}
+                            if who[0] == "elem" and it == ("field", ("var", "self"), "king_positions"):
                                 sides |= {"White", "Black"}
-                # counting `while`: let mut i = 0; while i < len { ..; i += 1 }
-                if who[0] == "kidx" and var is not None and not sides:
-                    loops = [a for a in anc if a.get("k") == "Loop" and "While" in str(a.get("src"))]
-                    inits = [n_ for n_, _ in hir.walk(body) if n_.get("k") == "SLet" and n_["pat"].get("name") == var and n_.get("init") is not None
-                             and hir.sym_int(sym(n_["init"])) == 0]
-                    if loops and len(inits) == 1:
-                        lp = loops[-1]
-                        incs = [n_ for n_, _ in hir.walk(lp) if n_.get("k") == "AssignOp" and hir.strip(n_["l"]).get("to", {}).get("name") == var]
-                        other = [n_ for n_, _ in hir.walk(lp) if n_.get("k") == "Assign" and hir.strip(n_["l"]).get("to", {}).get("name") == var]
-                        jumps = [n_ for n_, a2 in hir.walk(lp) if n_.get("k") in ("Continue", "Ret") or (n_.get("k") == "Break" and not n_.get("mac"))]
-                        cond_ok = any(t in ("(%s < <impl [T]>::len(self.king_positions))" % var, "(%s < 2)" % var) and pol for t, pol in
-                                      [(hir.fmt(hir.canon(hir.resolve_consts(x[1], F)), 120), x[2]) for x in g_all if x[0] == "if"])
-                        if len(incs) == 1 and incs[0]["op"] == "+=" and hir.sym_int(sym(incs[0]["r"])) == 1 and not other and cond_ok and \
-                                hir.raw_line(incs[0]) > hir.raw_line(c) and len(jumps) <= 1:
-                            sides |= {"White", "Black"}
-                            loop_conds = [t for t, pol in here if t.startswith("(%s <" % var)]
-            here2 = [(t, pol) for t, pol in here if t not in loop_conds]
-            if here2 == swap_guard:
-                reseated |= sides
-        ctx.check("C03.S1b", "both-kings-reseated-after-table-swap", reseated == {"White", "Black"}, fn=path, file=fn["file"],
-                  line=hir.line(sets[0]) if sets else fn["span"][0],
-                  what="the king table is swapped but the kings' cached contributions are not recomputed: score stops being the sum of "
-                       "per-square contributions and the next king push/pop (even inside get_moves) changes it",
-                  expected="set_position(get_king_position(p), get_position(..)) for p in {White, Black} under the same condition as the swap",
-                  found=sorted(reseated))
+                            if who[0] == "kidx":
+                                t_it = hir.fmt(hir.resolve_consts(it, F), 120)
+                                if t_it in ("ops::Range{end: 2, start: 0}", "ops::Range{end: <impl [T]>::len(self.king_positions), start: 0}"):
+                                    sides |= {"White", "Black"}
+                    # counting `while`: let mut i = 0; while i < len { ..; i += 1 }
+                    if who[0] == "kidx" and var is not None and not sides:
+                        loops = [a for a in anc if a.get("k") == "Loop" and "While" in str(a.get("src"))]
+                        inits = [n_ for n_, _ in hir.walk(body) if n_.get("k") == "SLet" and n_["pat"].get("name") == var and n_.get("init") is not None
+                                 and hir.sym_int(sym(n_["init"])) == 0]
+                        if loops and len(inits) == 1:
+                            lp = loops[-1]
+                            incs = [n_ for n_, _ in hir.walk(lp) if n_.get("k") == "AssignOp" and hir.strip(n_["l"]).get("to", {}).get("name") == var]
+                            other = [n_ for n_, _ in hir.walk(lp) if n_.get("k") == "Assign" and hir.strip(n_["l"]).get("to", {}).get("name") == var]
+                            jumps = [n_ for n_, a2 in hir.walk(lp) if n_.get("k") in ("Continue", "Ret") or (n_.get("k") == "Break" and not n_.get("mac"))]
+                            cond_ok = any(t in ("(%s < <impl [T]>::len(self.king_positions))" % var, "(%s < 2)" % var) and pol for t, pol in
+                                          [(hir.fmt(hir.canon(hir.resolve_consts(x[1], F)), 120), x[2]) for x in g_all if x[0] == "if"])
+                            if len(incs) == 1 and incs[0]["op"] == "+=" and hir.sym_int(sym(incs[0]["r"])) == 1 and not other and cond_ok and \
+                                    hir.raw_line(incs[0]) > hir.raw_line(c) and len(jumps) <= 1:
+                                sides |= {"White", "Black"}
+                                loop_conds = [t for t, pol in here if t.startswith("(%s <" % var)]
+                here2 = [(t, pol) for t, pol in here if t not in loop_conds]
+                if here2 == swap_guard:
+                    reseated |= sides
+            ctx.check("C03.S1b", "both-kings-reseated-after-table-swap", reseated == {"White", "Black"}, fn=path, file=fn["file"],
+                      line=hir.line(c0) if sets else fn["span"][0],
+                      what="the king table is swapped but the kings' cached contributions are not recomputed: score stops being the sum of "
+                           "per-square contributions and the next king push/pop (even inside get_moves) changes it",
+                      expected="set_position(get_king_position(p), get_position(..)) for p in {White, Black} under the same condition as the swap",
+                      found=sorted(reseated))
     # tables never change between a push and its pop: the swap is reachable only from new / push_history
     g = mir.callgraph(F)
     for path, node, kind in sites:
